@@ -92,7 +92,7 @@ theorem run_eq_ignore (cfg : Cfg) (fails : Nat → Bool) (hIO : cfg.keepIO = tru
     by_cases hb : (place mode o.exe).byValue = true
     · simp only [hb, if_true]
       rw [runKids_eq_ignore cfg fails hIO hKE hDD kids (.honour true) ins links KS.init hk]
-      simp only [mergeOrFail, herr, Bool.false_eq_true, if_false, mergeBack, hIO, hKE, hDD, if_true]
+      simp [mergeOrFail, herr, mergeBack, hIO, hKE, hDD]
     · simp only [hb]
       rw [runKids_eq_ignore cfg fails hIO hKE hDD kids mode ins links KS.init hk]
       simp
@@ -374,6 +374,11 @@ theorem edit_locked (s : Sess) (e : Edit) (h : lockedTop s.node = true) :
     · rename_i hn
       simp only [Bool.not_eq_true] at hn
       exact ⟨fetchTop_noData s.ext hn _ _, rfl⟩
+  | setKid j k v =>
+    cases hn : s.node with
+    | fn o fid => simp [edit, hn]
+    | comp o c l ks =>
+      cases c <;> simp_all [edit, lockedTop]
 
 theorem edits_locked : ∀ (es : List Edit) (s : Sess), lockedTop s.node = true →
     (edits s es).node = s.node ∧ (edits s es).job = s.job
